@@ -374,7 +374,11 @@ class Values:
             {'hosts': {'127.0.0.1': {'tcp_port': '9' * 5000, 'ssl_port': -1}}, 'pruning': -1},
             {'hosts': {'a.b': {'tcp_port': nan}}, 'protocol_min': nan, 'genesis_hash': 5},
             {'hosts': {'ａ.b': None}}, {'hosts': {'xn--a.b': {}}}, {'hosts': {'a.b': deep(40)}},
-            {'hosts': {'A' * 63 + '.com': {}}}, {'hosts': {'。': {}}}]
+            {'hosts': {'A' * 63 + '.com': {}}}, {'hosts': {'。': {}}},
+            # port / pruning values that are strings of "digits" int() refuses or reads differently
+            {'hosts': {'a.onion': {'tcp_port': '5000²'}}}, {'hosts': {'1.2.3.4': {'ssl_port': '①'}}, 'pruning': '٣'},
+            {'hosts': {'b.onion': {'tcp_port': '１２', 'ssl_port': ' 7 '}}, 'pruning': '²'},
+            {'hosts': {'c.onion': {'tcp_port': '9' * 4301}}}, {'hosts': {'d.onion': {'ssl_port': '+5'}}, 'pruning': '1_0'}]
         self.client_names = ['', 'electrum', 'bad client', 'badx', 'Bad', 'x' * 100, None, 0, 5, True, [],
                              ['bad'], {'bad': 1}, nan, 1.5, 'good\x00', '\udc80']
         self.pversions = [None, '1.4', '1.4.2', '1.4.1', ['1.4', '1.4.2'], ['1.4', '1.5'], ['1.2', '1.4.1'],
@@ -418,6 +422,20 @@ class Values:
         'server.ping': [],
         'server.version': ['client', 'pversion'],
     }
+
+    def pools(self):
+        return {
+            'int': (self.int_valid, self.int_edge),
+            'sh': (self.sh_valid, self.sh_edge),
+            'tx': (self.tx_valid, self.sh_edge),
+            'bool': (self.bool_valid, self.bool_edge),
+            'raw': (self.raw_valid, self.raw_edge),
+            'target': (self.target_valid, self.target_edge),
+            'txid_or_tx': (self.txid_or_tx[:2], self.txid_or_tx),
+            'features': (self.features_valid, self.features_edge),
+            'client': (self.client_names[:2], self.client_names),
+            'pversion': (self.pversions[:5], self.pversions),
+        }
 
     def pick(self, rng, kind, valid_p=0.75):
         pools = {
@@ -805,6 +823,21 @@ async def run_async(tier, seed, res):
                 ctx.w.mgr._tx_hashes_cache.clear()
                 ctx.w.mgr._merkle_cache.clear()
                 runner.emit('W clearcaches')
+        # 2c. sweep: every value of every typed pool (valid and edge) at its own position of every
+        #     method, the other positions taken from a request that is meant to succeed
+        pools = v.pools()
+        for method in methods:
+            kinds = Values.KINDS[method]
+            for j, kind in enumerate(kinds):
+                if kind not in pools:
+                    continue
+                for val in pools[kind][0] + pools[kind][1]:
+                    args = v.valid_tuple(rng, method)
+                    while len(args) <= j:
+                        args.append(v.pick(rng, kinds[len(args)], 1.0))
+                    args[j] = val
+                    await do_request(ctx, runner, v, method, args, None, 'sweep')
+                    res.bump('sweep_requests')
         # lines json.loads itself refuses (aiorpcx's receive path; see Runner.request)
         for params in ('[1' + '0' * 4300 + ']', '[' * 1600 + ']' * 1600, '["' + '9' * 5000 + '"]'):
             await runner.request(0, 'blockchain.block.header', None,
